@@ -1001,7 +1001,19 @@ fn check_bg_new<A: Alphabet>(arr: &[f32], fails: &mut Fails) -> Option<bool> {
             None
         }
         (Some(_), Ok(Err(()))) => None,
-        (None, Ok(Err(()))) => Some(false),
+        (None, Ok(Err(()))) => {
+            // a background whose entries are multiples of 1/16 in [0,1] and add up to one is valid under every
+            // reading (its sum is exact in f32 in any order): the conversions are stated for ANY valid background,
+            // so it must be constructible
+            if arr.iter().all(|&x| (x * 16.0).fract() == 0.0) {
+                push(
+                    fails,
+                    "Background::new rejects valid".into(),
+                    format!("Background::new rejected {:?}: every entry is in [0,1] and the entries (multiples of 1/16) add up to exactly one", arr),
+                );
+            }
+            Some(false)
+        }
         (None, Ok(Ok(fr))) => {
             if fr != arr {
                 push(
@@ -1137,7 +1149,7 @@ fn run_background(ctx: &mut Ctx, rep: &mut Report, index: &mut u64) {
         "Background::<Dna>::new on all 9^5 = 59049 arrays over {-0.25, -0.1, 0, .25, .5, 1, 1.1, 1.25, NaN} (so that arrays with a negative entry that still sum to exactly one exist); Background::<Protein>::new on two valid dyadic bases \
          (sixteen 1/16; (.5,.25,.25,0,...)) with every single position and every pair of positions replaced by every menu value (2 x (189 + 17010) arrays); from_counts on all {0,1,2,5}^5 DNA count arrays and on protein arrays with <= 2 non-zero positions from {1,3}; from_sequence on every DNA \
          sequence of length <= 4 and from_sequences on every ordered pair of sequences of length <= 2, both with unknown = false/true. Oracle: every array with an entry outside [0,1] / NaN or an (exactly computed) \
-         sum != 1 must be rejected, zero counted symbols must be rejected; accepted backgrounds from counts must equal count/total. Acceptance of valid input is recorded but not demanded. \
+         sum != 1 must be rejected, zero counted symbols must be rejected; accepted backgrounds from counts must equal count/total. Acceptance is demanded only of arrays whose entries are multiples of 1/16 in [0,1] adding up to exactly one (valid under every reading, one-symbol backgrounds included); for other valid input it is recorded but not demanded. \
          non-trivial = inputs whose rejection is demanded, and count inputs with a positive total",
     );
     let mut valid_rejected = false;
